@@ -20,13 +20,13 @@ from ..model import M, other
 
 LEVEL = 'model_checking'
 RULE = ('tables {2x3, 3x2, 3x3 (+4x2, 2x4 thorough)} x 2 layouts x axis x every labelling of the axis over '
-        '{A,B,None,[A,x],0,\'\'} x 4 labelling forms x partition flags (remove_empty x ignore_none) and collapse '
+        '{A,B,None,[x,A] (a list, not in sorted order),0,\'\'} x 4 labelling forms x partition flags (remove_empty x ignore_none) and collapse '
         'flags (norm x min_group_size x include_collapsed_metadata); one-to-many: every assignment of one of '
         'the 15 pathway sequences (length 0..3 over {A,B}) to each vector x {add,divide} x axis; non-trivial '
         '= at least two distinct labels in use; distinct by (table, axis, labelling, form)')
 
 GA, GB = 'K10', 'K2'      # group labels whose natural order (K2 < K10) differs from their string order (K10 < K2)
-LABELS = [GA, GB, None, [GA, 'x'], 0, '']      # incl. falsy labels that are not None
+LABELS = [GA, GB, None, ['x', GA], 0, '']      # incl. falsy labels that are not None; the list label is NOT in sorted order
 PATHS = [()] + [p for k in (1, 2, 3) for p in itertools.product((GA, GB), repeat=k)]   # 15 sequences
 
 
